@@ -294,9 +294,10 @@ V("M3.enclose_recursive", ["C01", "C16", "C10"], "enclose", "enclose_recursive",
   "terminates for every list (decreases len), recursion depth <= len", "buffer/fragment_buffer/fragment_tree.rs")
 
 END = "buffer/cell_buffer/endorse.rs"
-K("RP.parallel_aabb_group", ["C05", "C01"], END, "check_parallel_aabb_group4", "endorse::parallel_aabb_group",
-  "for 4 fragments and every parallel relation: result = greedy matching in lexicographic order; pairs distinct, related, no index twice",
-  timeout=600, assumes=["Fragment::is_aabb_parallel replaced by an opaque relation on the fragment indices (its contract: FP)"])
+B("RP.parallel_aabb_group", ["C05", "C01"], END, "bounded_parallel_aabb_group", "endorse::parallel_aabb_group",
+  "result = greedy matching in lexicographic order over Fragment::is_aabb_parallel; pairs only name lines",
+  "all 6561 4-tuples from a pool of 9 fragments (7 lines incl. equal-extent, dashed, diagonal, shifted; a circle; an arc); "
+  "Kani: the growing Vec inside the 4x4 loop exhausts memory (46 GB) even with an opaque relation; Verus: enumerate unsupported")
 K("FP.fragment_is_aabb_parallel", ["C05", "C01"], END, "check_fragment_is_aabb_parallel", "Fragment::is_aabb_parallel / Line::is_aabb_parallel / is_aabb_perpendicular / as_line / as_arc",
   "only (Line,Line) pairs are parallel; lines: both horizontal with equal x extent or both vertical with equal y extent", timeout=300)
 for _m in ("m0", "m1", "m2"):
@@ -386,3 +387,24 @@ K("N2.span_bounds_localize", ["C12", "C01", "C06", "C13"], SPAN, "check_span_bou
   "localize(translate(s,d)) = localize(s)", kind="bounded", bound="spans of 3 cells (and the empty span), all valid cells symbolic", timeout=600)
 K("A2.span_extract_bounded", ["C10"], SPAN, "check_span_extract_bounded", "Span::is_bounded / hit_cell / extract",
   "inclusive box tests per cell", kind="bounded", bound="spans of 3 cells", timeout=600)
+
+FTREE = "buffer/fragment_buffer/fragment_tree.rs"
+B("C16.enclose_tags", ["C16", "C10"], FTREE, "bounded_enclose_tags",
+  "FragmentTree::enclose_fragments / enclose_recursive / second_pass_enclose / enclose_deep_first / Fragment::as_css_tag / can_fit (real bodies)",
+  "a tag inside a rectangle or circle adds its names to the innermost enclosing shape and is not rendered; inside no shape it stays text; "
+  "malformed tags and other text are rendered once, unaffected; every shape occurs exactly once",
+  "4 shapes (box, box nested in it, sibling box, circle) x 5 placements x 6 contents x 4 shape orders (precondition: shapes before texts, an enclosing shape before its content - the order endorse_to_fragment_spans produces) = 480 cases; "
+  "Kani: the recursive Vec<FragmentTree> with Strings did not finish in 900 s",
+  timeout=600)
+
+B("C16.legend_grammar", ["C16"], UTIL, "bounded_legend_grammar", "parser::parse_css_legend (pom grammar)",
+  "header variants, 1..3 'ident = {css}' entries (any css without braces, incl. newlines and quotes), separators with/without blanks, trailing blanks: "
+  "entries in order; malformed legends answered without panic",
+  "4 headers x 3 lengths x 4 identifiers x 6 declarations x 4 separators x 4 trailers = 4608 legends + 5 malformed (pom is outside Kani and Verus)")
+B("C17.legend_cut_line_endings", ["C16", "C17"], CB, "bounded_legend_cut_and_line_endings", "From<&str> for CellBuffer / parse_css_legend / legend_css",
+  "the legend is never drawn, the drawing before it is untouched, the rules come out in order, and CRLF input gives the same cells and rules as LF",
+  "4 drawings x 3 legends x 4 trailing-blank variants x {LF, CRLF}")
+B("C16.tag_grammar", ["C16", "C08"], UTIL, "bounded_tag_grammar", "parser::parse_css_tag", "'{ident(,ident)*}' accepted with its names; 12 malformed variants rejected", "5 + 13 strings")
+B("T6.string_and_cell_buffer", ["C04", "C17"], CB, "bounded_string_and_cell_buffer", "From<&str> for StringBuffer / From<StringBuffer> for CellBuffer",
+  "cells = the non-blank characters at the column where their display columns start (wide = 2 columns); LF/CRLF, trailing blanks and blank lines add nothing",
+  "first row: all strings of <= 4 (thorough 5) tokens over {a, e-acute, wide CJK, space, -, TAB} x 3 second rows x {LF, CRLF} x 4 trailing-blank variants")
